@@ -73,6 +73,14 @@ theorem composite_between_extremes (q1 : α) (ex : List (α × α)) (hk : ∀ kq
 theorem composite_two (q1 k q2 : α) : compositeCXRate q1 [(k, q2)] = (q1 + k * q2) / (1 + k) := by
   simp [compositeCXRate, sumFrom]
 
+/-- a metastable whose coefficient is exactly zero still weighs in the normalisation `1 + Σ kᵢ` -/
+theorem composite_zero_coefficient_keeps_weight (q1 k : α) (ex : List (α × α)) :
+    compositeCXRate q1 ((k, 0) :: ex)
+      = (q1 + (ex.map fun kq => kq.1 * kq.2).sum) / (1 + k + (ex.map fun kq => kq.1).sum) := by
+  rw [composite_formula]
+  simp only [List.map_cons, List.sum_cons, mul_zero, zero_add]
+  congr 1; ring
+
 /-! ## `Plasma.ion_density`, `Plasma.z_effective` -/
 
 /-- `ion_density` is the sum of the densities of all species of the composition -/
@@ -549,6 +557,10 @@ example : SqrtSpec Real.sqrt := fun t ht => ⟨Real.sqrt_nonneg t, Real.mul_self
 /-- two excited metastables with populations ½ and ¼ -/
 example : compositeCXRate (1 : ℚ) [(1/2, 3), (1/4, 5)] = 15 / 7 := by
   norm_num [compositeCXRate, sumFrom]
+
+/-- … so dropping such a metastable would change the mean: `(1 + 1·0)/(1 + 1) = 1/2`, not `1` -/
+example : compositeCXRate (1 : ℚ) [(1, 0)] = 1 / 2 ∧ compositeCXRate (1 : ℚ) [] = 1 := by
+  constructor <;> norm_num [compositeCXRate, sumFrom]
 
 /-- D⁺, C⁶⁺ and neutral D: `Z_eff = (1·1 + 36·(1/100)) / (1 + 6/100)`; the neutral counts in `ion_density` only -/
 def exSpecies : List (Species ℚ) :=
